@@ -46,7 +46,8 @@ PROBES = ["image_moved_between_redraws", "image_disappeared", "bare_non_composit
           "stop_start_cycle", "clear_images_now", "konsole_iterm2_image", "resize",
           "ghost_free_redraws", "returned_to_earlier_layout",
           "kitty_style_by_forced_support", "grid_row_redivided",
-          "kitty_widget_spec_with_z_index_field", "redraw_interrupted"]
+          "kitty_widget_spec_with_z_index_field", "redraw_interrupted",
+          "images_rerendered_in_place"]
 COMPONENTS = {
     "real": ["UrwidImageScreen (draw_screen, clear, clear_images, _start, _stop, "
              "_ti_clear_images)", "UrwidImage / UrwidImageCanvas", "KittyImage / ITerm2Image / "
@@ -402,6 +403,7 @@ def run(ch, ctx, fault=None):
                     (10, "draw"), (3, "create"), (2, "drop"), (5, "layout"), (3, "scroll"),
                     (6, "grid_edit"), (3, "move_overlay"), (2, "resize"), (1, "clear"),
                     (2, "clear_images"), (1, "stop_start"), (2, "draw_interrupted"),
+                    (2, "swap_toggle"),
                 ])
             desc = op
             if op == "draw":
@@ -499,6 +501,23 @@ def run(ch, ctx, fault=None):
                                                else "(completed)")
                 last_geo[0] = None
                 force_new[0] = True
+            elif op == "swap_toggle":
+                # the application corrects the reported window dimensions (win-size swap): the
+                # cell size the library works with changes at an unchanged terminal size, the
+                # image widgets are re-rendered IN PLACE with a different extent inside
+                # their boxes
+                from term_image import utils as ti_utils
+                import term_image
+                if ti_utils._swap_win_size:
+                    term_image.disable_win_size_swap()
+                else:
+                    term_image.enable_win_size_swap()
+                for d in pool:
+                    if d["kind"] == "image":
+                        d["w"]._invalidate()
+                urwid.CanvasCache.clear()
+                desc = "win-size swap -> %s; image widgets invalidated" % ti_utils._swap_win_size
+                ctx.probe("images_rerendered_in_place")
             elif op == "create":
                 if len(pool) >= 6:
                     continue
